@@ -1,7 +1,7 @@
 (* Proofs/HashExamples.v — the hypotheses of the C08 theorems are satisfiable on non-trivial values, and the
    PathLike-key witness is a genuine failure of discrimination (same digest, different values, no collision). *)
 From Pydra Require Import Base.Prelude Base.PySort Model.Hash Spec.Hash Proofs.HashSort Proofs.HashCtx
-     Proofs.HashInjStr Proofs.HashInj Proofs.HashOrder Proofs.HashDom Proofs.HashRefuted.
+     Proofs.HashInjStr Proofs.HashInj Proofs.HashOrder Proofs.HashDom Proofs.HashRefuted Proofs.HashTask.
 Local Open Scope list_scope.
 Local Open Scope string_scope.
 
@@ -56,4 +56,44 @@ Proof.
   split; [vm_compute; discriminate|]. split.
   - eexists. split; vm_compute; reflexivity.
   - apply no_collb_sound. vm_compute. reflexivity.
+Qed.
+
+(* ------------------------------------------------------------------ C07 *)
+(* the same set seen in two sessions: other iteration order, other identity *)
+Definition ex_s1 : pyval := VSet 3 [VInt 2; VInt 1].
+Definition ex_s2 : pyval := VSet 4 [VInt 1; VInt 2].
+Definition ex_env1 (i : nat) : option pyval := match i with 3 => Some ex_s1 | _ => None end.
+Definition ex_env2 (i : nat) : option pyval := match i with 4 => Some ex_s2 | _ => None end.
+
+Lemma wf_atom_int : forall env o z, wf env o (VInt z).
+Proof. intros. constructor; [intros i; discriminate|intros i; discriminate|intros x []]. Qed.
+
+Example ex_session_hyps :
+  forall H,
+    Proofs.HashTask.session_variant [("x", ex_s1)] [("x", ex_s2)] /\
+    (forall kv, In kv [("x", ex_s1)] -> sortable (snd kv) /\ hashable_acyclic H ex_env1 (snd kv)) /\
+    (forall kv, In kv [("x", ex_s2)] -> hashable_acyclic H ex_env2 (snd kv)).
+Proof.
+  intros H. split; [|split].
+  - constructor; [|constructor]. split; [reflexivity|]. apply ro_set. apply Permutation.perm_swap.
+  - intros kv [<-|[]]. cbn [snd]. split; [apply (sortableb_sound 3); vm_compute; reflexivity|]. split.
+    + constructor; [intros i; discriminate| |].
+      * intros i E. inversion E; subst. split; [reflexivity|intros []].
+      * intros x [<-|[<-|[]]]; apply wf_atom_int.
+    + eexists. vm_compute. reflexivity.
+  - intros kv [<-|[]]. cbn [snd]. split.
+    + constructor; [intros i; discriminate| |].
+      * intros i E. inversion E; subst. split; [reflexivity|intros []].
+      * intros x [<-|[<-|[]]]; apply wf_atom_int.
+    + eexists. vm_compute. reflexivity.
+Qed.
+
+(* a task input frozenset({frozenset({1,2}), frozenset({3,4})}) in the two iteration orders two hash seeds give *)
+Lemma checksum_seed_dependent :
+  Proofs.HashTask.session_variant [("x", po_s1)] [("x", po_s2)] /\
+  checksum toyH "python" [("x", po_s1)] <> checksum toyH "python" [("x", po_s2)].
+Proof.
+  split.
+  - constructor; [|constructor]. split; [reflexivity|]. apply ro_fset. apply Permutation.perm_swap.
+  - vm_compute. intros E. discriminate E.
 Qed.
